@@ -18,7 +18,10 @@ Embedding (coq/theories/PyLib.v, hand-written, part of the trusted base):
 import ast, sys, os, textwrap
 
 REPO = os.environ.get("VERIF_REPO", "/repo")
-OUT = os.path.join(os.path.dirname(os.path.abspath(__file__)), "..", "coq", "theories", "PySrc.v")
+OUTDIR = os.path.join(os.path.dirname(os.path.abspath(__file__)), "..", "coq", "theories")
+# generated file -> the functions it holds (one file per group of properties, so that a change of one Python function
+# breaks the proof obligations of the properties tied to it and of no other)
+GROUPS = [("PySrc.v", ["is_subspace", "intersect"]), ("PySrcKey.v", ["space_unique_key"]), ("PySrcPlace.v", ["variable_to_place", "place_to_variable"])]
 
 # function -> (file, argument types, result type, types of the local variables)
 FUNCS = [
@@ -278,12 +281,13 @@ def assigned_locals(fn_node, locs):
             out.append(name)
     return out
 
-def translate():
-    parts = ["(* PySrc.v -- GENERATED by tools/py2coq.py from the current sources of /repo/biobalm; do not edit.",
+def translate(fname, names):
+    parts = [f"(* {fname} -- GENERATED by tools/py2coq.py from the current sources of /repo/biobalm; do not edit.",
              "   Each definition is the translation of the Python function of the same name (see the header of the",
              "   translator for the embedding).  PySrcFacts.v proves them equal to the model's functions. *)",
              "From Coq Require Import List Bool Arith NArith.", "Import ListNotations.", "From BB Require Import PyLib.", ""]
     for name, path, args, ret, locs in FUNCS:
+        if name not in names: continue
         src = open(os.path.join(REPO, path)).read()
         mod = ast.parse(src)
         nodes = [n for n in mod.body if isinstance(n, ast.FunctionDef) and n.name == name]
@@ -325,18 +329,32 @@ def pretty(t, width=110):
     out.append(line)
     return "\n".join(out)
 
+def _also_sd():
+    """the strategy drivers (coq/theories/PySrcSd.v) are regenerated by the same command"""
+    sys.path.insert(0, os.path.dirname(os.path.abspath(__file__)))
+    import py2coq_sd
+    return py2coq_sd.main(sys.argv)
+
 if __name__ == "__main__":
+    rc_sd = 0
+    if "--no-sd" in sys.argv:
+        sys.argv.remove("--no-sd")
+    else:
+        rc_sd = _also_sd()
+    if rc_sd == 2:
+        sys.exit(2)
     try:
-        text = translate()
+        texts = [(os.path.join(OUTDIR, f), translate(f, names)) for f, names in GROUPS]
     except Unsupported as e:
         print("py2coq: UNSUPPORTED: " + str(e), file=sys.stderr)
         sys.exit(2)
     if len(sys.argv) > 1 and sys.argv[1] == "--check":
-        old = open(OUT).read() if os.path.exists(OUT) else ""
-        print("unchanged" if old == text else "CHANGED")
-        sys.exit(0 if old == text else 1)
-    if os.path.exists(OUT) and open(OUT).read() == text:
-        print("unchanged", os.path.normpath(OUT))            # keep the timestamp: nothing to rebuild
-    else:
-        open(OUT, "w").write(text)
-        print("wrote", os.path.normpath(OUT))
+        same = all(os.path.exists(o) and open(o).read() == t for o, t in texts)
+        print("unchanged" if same else "CHANGED")
+        sys.exit(0 if (same and rc_sd == 0) else 1)
+    for o, t in texts:
+        if os.path.exists(o) and open(o).read() == t:
+            print("unchanged", os.path.normpath(o))            # keep the timestamp: nothing to rebuild
+        else:
+            open(o, "w").write(t)
+            print("wrote", os.path.normpath(o))
